@@ -63,13 +63,13 @@ def run(ctx):
         'cat echoes its input; the order of a running child\'s output relative to the program\'s later writes is left open '
         'until close(): every interleaving that keeps each stream\'s order and the start/close window is accepted',
         'with a failing stdout writer only "the run returns an error" is judged',
-        'histories that start processes are sampled in the quick tier (all with <= 2 actions, a seeded sample of the rest)',
+        'histories that start processes are sampled (a process start costs ~100 ms here): all with <= 2 actions plus a seeded 3% (quick) / 8% (thorough) of the 3-action ones, 5% of the 4-action ones, 30% of the random walks; histories without a child process are replayed exhaustively',
         'gate writer: the first writer is parked for up to 2.5 s; a second writer that needs longer to show up is missed '
         '(missed detection only, never an alarm)',
     ]
     ctx.build()
     # 1. model
-    mc = ctx.cfg('MC_IOStreams', constants={'Depth': 2 if q else 3, 'Sandbox': 'FALSE', 'FailMax': 2 if q else 3})
+    mc = ctx.cfg('MC_IOStreams', constants={'Depth': 2 if q else 3, 'Sandbox': 'FALSE', 'FailMax': 1 if q else 3})
     ctx.tlc('MC_IOStreams', mc, timeout=1500, heap='8g')
     ctx.tlc('StdoutShare', 'StdoutShare', timeout=300, capture='share.ndjson', label='StdoutShare(serialised)')
     unser = ctx.cfg('StdoutShare', name='StdoutShare_unser', constants={'Serialised': 'FALSE'}, drop=['INVARIANTS'],
@@ -90,22 +90,23 @@ def run(ctx):
     # 2. spec -> code
     gen = ctx.cfg('Gen_IOStreams', name='Gen_delivery', constants={'Family': '"delivery"', 'Depth': 3, 'Rich': 1 if q else 2})
     ctx.tlc('Gen_IOStreams', gen, capture='delivery_all.ndjson', timeout=900)
-    sample_procs(ctx, 'delivery_all.ndjson', 'delivery.ndjson', 3, 0.03 if q else 0.3)
+    sample_procs(ctx, 'delivery_all.ndjson', 'delivery.ndjson', 3, 0.03 if q else 0.08)
     if not q:
         gen4 = ctx.cfg('Gen_IOStreams', name='Gen_delivery4', constants={'Family': '"delivery"', 'Depth': 4, 'Rich': 0})
         ctx.tlc('Gen_IOStreams', gen4, capture='delivery4_all.ndjson', timeout=1500, heap='8g')
-        sample_procs(ctx, 'delivery4_all.ndjson', 'delivery4.ndjson', 0, 0.1)
+        sample_procs(ctx, 'delivery4_all.ndjson', 'delivery4.ndjson', 0, 0.05)
         sim = ctx.cfg('Gen_IOStreams', name='Gen_delivery_sim', constants={'Family': '"delivery"', 'Depth': 8, 'Rich': 2})
-        ctx.tlc('Gen_IOStreams', sim, capture='delivery_sim.ndjson', simulate=3000, depth=10, workers=1, timeout=600)
+        ctx.tlc('Gen_IOStreams', sim, capture='delivery_sim_all.ndjson', simulate=400, depth=10, workers=1, timeout=600)
+        sample_procs(ctx, 'delivery_sim_all.ndjson', 'delivery_sim.ndjson', 0, 0.3)
     ctx.cov['exhaustive'] = True
-    ctx.replay('delivery.ndjson', label='delivery', min_cases=2000, corrupt=iocommon.corrupt)
+    iocommon.replay(ctx, 'delivery.ndjson', 'delivery', iocommon.corrupt, 2000)
     if not q:
-        ctx.replay('delivery4.ndjson', label='delivery-depth4', min_cases=2000, corrupt=iocommon.corrupt)
-        ctx.replay('delivery_sim.ndjson', label='delivery-walks', min_cases=200, corrupt=iocommon.corrupt)
+        iocommon.replay(ctx, 'delivery4.ndjson', 'delivery-depth4', iocommon.corrupt, 2000)
+        iocommon.replay(ctx, 'delivery_sim.ndjson', 'delivery-walks', iocommon.corrupt, 200)
     fail = ctx.cfg('Gen_IOStreams', name='Gen_failure', constants={'Family': '"failure"', 'Depth': 2 if q else 3, 'Rich': 1})
     ctx.tlc('Gen_IOStreams', fail, capture='failure.ndjson', timeout=900)
-    ctx.replay('failure.ndjson', label='stdout-failure', min_cases=200, corrupt=iocommon.corrupt_failure)
-    ctx.replay('share.ndjson', label='shared-stdout', min_cases=3, corrupt=iocommon.corrupt_share)
+    iocommon.replay(ctx, 'failure.ndjson', 'stdout-failure', iocommon.corrupt_failure, 200)
+    iocommon.replay(ctx, 'share.ndjson', 'shared-stdout', iocommon.corrupt_share, 3)
     if not q:
         race_instrument(ctx)
     # 3. code -> spec
